@@ -134,14 +134,9 @@ def transpose(self, *dims):
         dims = dims[0]
 
     if len(dims) == 0:
-        if self.ndim == 2:
-            dims = [1,0] # numpy, 2-D case
-        elif self.ndim == 1:
-            dims = [0]
-        elif self.ndim == 0:
+        if self.ndim == 0:
             return self
-        else:
-            raise ValueError("indicate dimensions to transpose")
+        dims = list(range(self.ndim))[::-1] # as numpy: reverse the dimensions (a.T)
 
     # get equivalent indices 
     newshape, _ = self._get_axes_info(dims)
